@@ -547,6 +547,37 @@ def close_scenarios(rnd, thorough):
 
 
 
+def cancel_scenarios(rnd, thorough):
+    """an awaited reply whose caller GIVES UP (its context is cancelled) at a chosen point of the reply's arrival — before the
+    header, inside it, between header and payload, inside the payload (first byte, middle, before the last byte), after
+    delivery; the peer holds the rest of the frame until the caller has returned, then sends it, followed by a message of
+    every class (further awaited replies included).  Whoever awaits or has stopped awaiting, the stream stays aligned: the
+    frame in flight is consumed (its handler, if any, is offered exactly its bytes), the caller that gave up is told so (or,
+    if the reply had already been delivered, has exactly it), and everything behind is parsed at its own first byte and
+    delivered.  A crash of the process (a panic on the read loop's own goroutine) is attributed to the scenario.  Judged by
+    the property predicate (the model has no cancellation: theorem C04_alignment_whoever_awaits states the independence)."""
+    out = []
+    n = 24
+    cfgs = [("nobody", [], False), ("type-handler", [T_H], False), ("default-handler", [], True)]
+    lead = 10 + 6
+    wheres = [("before-header", 0), ("in-header", 4), ("header-payload-boundary", 10), ("payload-first-byte", 11),
+              ("in-payload", 10 + n // 2), ("before-last-byte", 10 + n - 1), ("after-delivery", 10 + n)]
+    for ci, (cname, hs, df) in enumerate(cfgs):
+        for wi, (wname, off) in enumerate(wheres):
+            via = VIAS[(ci + wi) % len(VIAS)]
+            b = Builder("cancel/%s/%s" % (cname, wname), hs, df)
+            b.sc.update(waits=True, pred_only=True, step_ms=2000)
+            jx = b.send(via, T_H)
+            after = class_block(b, rnd, 0xFFF60000, VIAS)
+            frames = [frame(T_H, 6, 6, mid=0xFFF60099), frame(T_H, n, rnd.choice([0, n // 2, n]), reply_to=jx)] + after
+            b.chunk(frames, ["whole", "byte", "rand"][(ci + wi) % 3], segseed=wi + 1, segmax=9)
+            b.sc["steps"][-1].update(cancel_caller=jx, cancel_at=lead + off,
+                                     cancel_recs=2 if off >= 10 else 1, cancel_done=2 if off >= 10 + n else 1)
+            b.sc["cancel"] = dict(where=wname, caller=jx)
+            out.append(b.sc)
+    return out
+
+
 def tail_scenarios():
     """the stream ends inside a header / inside a payload on each dispatch path / bad length"""
     out = []
@@ -779,6 +810,7 @@ def flatten(sc, want_stream=False):
             nid += 1
         elif st["op"] == "chunk":
             for f in st["frames"]:
+                f = dict(f, cancelled=st.get("cancel_caller") is not None and f["reply_to"] == st["cancel_caller"])
                 mid = req_id[f["reply_to"]] if f["reply_to"] is not None else f["id"]
                 pl = Pat(f["pseed"], f["plen"]) if f.get("pat") else (bytes.fromhex(f["phex"]) if f.get("phex") else payload(f["pseed"], f["plen"]))
                 frames.append(dict(f, id=mid, payload=pl, register=reg, internal=f["reply_to"] in internal, close_sent=close_sent))
@@ -997,7 +1029,9 @@ def property_check(sc, go):
             got = recs[i]["hdr"] if i < len(recs) else "nothing (stalled=%r, Connect=%s)" % (go["stalled"], go["connect_err"])
             sig = "panic-ends-connection:%s" % (frames[i - 1].get("pkind") or "string") if (i > 0 and frames[i - 1]["panic"] and i >= len(recs) and "nobody" not in prev_path) \
                 else "misaligned-after:" + prev_path
-            if i >= len(recs) and "neg-" in go["stalled"]:
+            if sc.get("cancel") and i > 0 and frames[i - 1]["cancelled"]:
+                sig = "misaligned-after-caller-gave-up:" + sc["cancel"]["where"]
+            elif i >= len(recs) and "neg-" in go["stalled"]:
                 # the script could not go on: the client's own next request / its ready gate never came
                 sig = "negotiation-reply-not-delivered"
             elif i >= len(recs) and i > 0 and frames[i - 1]["typ"] == MSG_CLOSE_RESP and frames[i - 1]["close_sent"] and close_status(frames[i - 1]) != 0:
@@ -1049,6 +1083,14 @@ def property_check(sc, go):
             if not c["returned"] or c["err"] != want_err:
                 fails.append(("caller-wrong-reply:" + path, "frame %d: the reader answered CloseConnection with status %d; Shutdown must "
                               "return %s, got %s" % (i, close_status(f), "nil" if want_err == "nil" else "an error reporting it", c)))
+        elif awaited and judged and f["cancelled"]:
+            # the caller gave up while its reply was arriving: it is told so (its context's error) — or, if the reply had
+            # been delivered before it gave up, it has exactly the reply
+            c = callers.get(f["id"])
+            exact = c is not None and handed_success(c) and hdr_matches(c, want) and c["dlen"] == len(pl) and c["md5"] == md5(pl)
+            if c is None or not c["returned"] or not (c["err"] == "ctx" or exact):
+                fails.append(("caller-wrong-reply:cancelled-" + sc["cancel"]["where"], "frame %d: the caller awaiting id %d gave up (%s); it must "
+                              "return its context's error or exactly the reply; got %s" % (i, f["id"], sc["cancel"]["where"], c)))
         elif awaited and judged:
             c = callers.get(f["id"])
             if c is None or not c["returned"]:
@@ -1177,6 +1219,7 @@ def run(tier, seed, replay=None):
         scs += stall_scenarios(random.Random(seed + 37), thorough)
         scs += stage_scenarios(random.Random(seed + 41), thorough)
         scs += close_scenarios(random.Random(seed + 43), thorough)
+        scs += cancel_scenarios(random.Random(seed + 47), thorough)
         scs += random_scenarios(rnd, 1500 if thorough else 150)
 
     # which types does the code exempt from the awaiting lookup?  (none before the C03/F2 fix)
@@ -1242,7 +1285,8 @@ def run(tier, seed, replay=None):
         return res.finish()
 
     for i, log in crashed:
-        res.violation("process-crash", "the test binary died while running scenario %s (a handler panic that is not recovered, or a "
+        res.violation("process-crash" + (":caller-gave-up-" + scs[i]["cancel"]["where"] if scs[i].get("cancel") else ""),
+                      "the test binary died while running scenario %s (a handler panic that is not recovered, or a "
                                        "crash in the read loop): %s" % (scs[i]["name"], log[-1200:]),
                       dict(kind="scenario", scenarios=[scs[i]], log=log))
     if unrun:
